@@ -1,5 +1,6 @@
 import Driver.C09
 import Driver.C06
+import Driver.Broker
 /-!
 `sfdriver`: executable models behind a line protocol.  One request per line
 (`<model> <op> <args…>`), one reply line per request.  Core-only (no Mathlib below this file).
@@ -9,6 +10,7 @@ def dispatch (ws : List String) : String :=
   match ws with
   | "c09" :: rest => Driver.C09.handle rest
   | "c06" :: rest => Driver.C06.handle rest
+  | "broker" :: rest => Driver.Broker.handle rest
   | _ => "bad-op"
 
 partial def loop (hin : IO.FS.Stream) (hout : IO.FS.Stream) : IO Unit := do
